@@ -89,9 +89,10 @@ type ledger struct {
 
 	shutdown atomic.Bool // set right before Shutdown is called
 
-	vmu   sync.Mutex
-	viols []violation
-	nviol map[string]int
+	vmu     sync.Mutex
+	emitNow func(violation)
+	viols   []violation
+	nviol   map[string]int
 }
 
 func newLedger(seed uint64, capacity func() (int, int)) *ledger {
@@ -110,7 +111,12 @@ func (l *ledger) violate(key, what string, witness any) {
 	defer l.vmu.Unlock()
 	l.nviol[key]++
 	if l.nviol[key] <= 3 {
-		l.viols = append(l.viols, violation{Key: key, What: what, Witness: witness})
+		v := violation{Key: key, What: what, Witness: witness}
+		l.viols = append(l.viols, v)
+		if l.emitNow != nil {
+			// report at once: the process may not live to see the next phase report
+			l.emitNow(v)
+		}
 	}
 }
 
